@@ -16,7 +16,7 @@ from .interp import Unsupported, PyExc, Event
 from .contracts import Ty
 
 S = T.SeqI
-MapOO = T.MapTheory('MapOO', T.Obj, T.Obj)
+MapOO = T.MapOO
 BoxInt = z3.Function('box_int', T.I, T.Obj)
 UnboxInt = z3.Function('unbox_int', T.Obj, T.I)
 BoxStr = z3.Function('box_str', S.sort, T.Obj)
